@@ -122,7 +122,7 @@ impl World {
     }
     fn balance(&self, m: &Msg) -> AssetBalance<AssetIndex> {
         let Key::Balance { asset } = self.canon(m.key) else { unreachable!() };
-        let v = Decimal::from(m.v);
+        let v = bal_value(m.v);
         AssetBalance { asset: AssetIndex(asset as usize), balance: Balance::new(v, v), time_exchange: ts(T0_MS + m.t as i64 * 1000) }
     }
     fn order(&self, m: &Msg) -> Order<ExchangeIndex, InstrumentIndex, OrderState<AssetIndex, InstrumentIndex>> {
@@ -178,11 +178,17 @@ fn held(state: &DefaultState, k: Key) -> Option<(i64, String)> {
 
 fn value_repr(w: &World, m: &Msg) -> String {
     match w.canon(m.key) {
-        Key::Balance { .. } => format!("{}/{}", Decimal::from(m.v), Decimal::from(m.v)),
+        Key::Balance { .. } => format!("{}/{}", bal_value(m.v), bal_value(m.v)),
         Key::Order { .. } => format!("{}", Decimal::from(m.v as u32 % QTY)),
         Key::L1 { .. } => format!("{:?}/{:?}", (m.v % 10 != 0).then(|| Decimal::from(m.v)), (m.v % 10 != 5).then(|| Decimal::from(m.v as u32 + 1))),
         Key::Trade { .. } => format!("{}", Decimal::from_f64(m.v as f64 / 4.0).unwrap()),
     }
+}
+
+/// balance carried by a message: one in five is exactly zero (an asset fully spent or withdrawn is a
+/// legal, newest-so-far value like any other)
+fn bal_value(v: u16) -> Decimal {
+    if v % 5 == 0 { Decimal::ZERO } else { Decimal::from(v) }
 }
 
 pub struct MaxTimestampWins;
@@ -479,7 +485,7 @@ impl Check for MaxTimestampWins {
 }
 
 pub fn run(ctx: &mut Ctx) {
-    ctx.rule = "max_timestamp_wins: 1..14|24 timestamped messages over keys {2 assets' balances, 2x2 orders' partially filled open reports, 3 instruments' L1 books, 3 instruments' public trades} with timestamps from a 5-value range (equal timestamps common), delivered 1..40|90 times as a generated selection with repetition, ~12% packed into full account snapshots, interleaved with cancel requests recorded for tracked orders (12%) account / market reconnect notices (6%) and messages that carry an item's content indirectly (12%: a full L2 snapshot topped by an L1 message, an order report in the cancel-in-flight state wrapping an open report — these may be taken as news or not, but never roll the item back), through EngineState::update_from_* and Engine::process on a 2-exchange / 3-instrument state. non-trivial = >= 1 stale delivery AND >= 1 exact duplicate AND >= 1 equal-timestamp pair with different values; distinct by hash of the case.".into();
+    ctx.rule = "max_timestamp_wins: 1..14|24 timestamped messages over keys {2 assets' balances (one value in five exactly zero), 2x2 orders' partially filled open reports, 3 instruments' L1 books, 3 instruments' public trades} with timestamps from a 5-value range (equal timestamps common), delivered 1..40|90 times as a generated selection with repetition, ~12% packed into full account snapshots, interleaved with cancel requests recorded for tracked orders (12%) account / market reconnect notices (6%) and messages that carry an item's content indirectly (12%: a full L2 snapshot topped by an L1 message, an order report in the cancel-in-flight state wrapping an open report — these may be taken as news or not, but never roll the item back), through EngineState::update_from_* and Engine::process on a 2-exchange / 3-instrument state. non-trivial = >= 1 stale delivery AND >= 1 exact duplicate AND >= 1 equal-timestamp pair with different values; distinct by hash of the case.".into();
     ctx.assumptions = vec![
         "OrderBookL1.last_update_time == event.time_exchange as every connector sets it; timestamps after 1970".into(),
         "messages with equal timestamps and different values: either delivered value may be held".into(),
